@@ -100,6 +100,10 @@ def ref_history(cfg, x, etas=None, lams=None):
 
         if exceeded_before:
             out.append(("eq", 0.0))
+        elif test == "kaplan_kolmogorov" and finite and mu == 0 and xi > 0:
+            # nothing is left under the null and something positive is drawn: the total now exceeds N t, p = 0, whatever
+            # the product was before (also when it was 0: the factor x/0 is not a number to multiply by)
+            out.append(("eq", 0.0))
         elif test != "kaplan_kolmogorov" and mu > u and not _near(mu, u, ATOL, RTOL):
             out.append(("eq", 1.0))
         elif fac is None:
